@@ -442,11 +442,8 @@ nextStateFile:
 	if err != nil {
 		return nil, err
 	}
-	if len(mgr.builder.KnownPcaps()) != len(cachedKnownPcapData) {
-		if err := mgr.saveState(); err != nil {
-			return nil, fmt.Errorf("unable to save state: %w", err)
-		}
-	}
+	// the state is saved below, when the PCAP-over-IP endpoints of the loaded state are in place again
+	saveNeeded := len(mgr.builder.KnownPcaps()) != len(cachedKnownPcapData)
 	mgr.pcapOverIPPackets = make(chan pcapOverIPPacket, 100)
 	mgr.pcapOverIPCmd = make(chan pcapOverIPCmd, 1)
 
@@ -455,6 +452,7 @@ nextStateFile:
 			f()
 		}
 	}()
+	saved := make(chan error, 1)
 	mgr.jobs <- func() {
 		go mgr.pcapOverIPPacketHandler()
 		go mgr.tagUpdateEventWorker()
@@ -464,6 +462,13 @@ nextStateFile:
 		for a := range pcapOverIPEndpoints {
 			mgr.pcapOverIPEndpoints = append(mgr.pcapOverIPEndpoints, mgr.newPcapOverIPEndpoint(ctx, a))
 		}
+		if saveNeeded {
+			saved <- mgr.saveState()
+		}
+		close(saved)
+	}
+	if err := <-saved; err != nil {
+		return nil, fmt.Errorf("unable to save state: %w", err)
 	}
 	return &mgr, nil
 }
